@@ -20,16 +20,17 @@ import (
 )
 
 type hconfig struct {
-	MapOrder    []string       `json:"map_order"`
-	Quiet       []string       `json:"quiet"`
-	Skip        []string       `json:"skip"`
-	KeepTests   []string       `json:"keep_tests"`
-	Shards      map[string]int `json:"shards"`     // tier -> processes per package
-	DeadlineS   map[string]int `json:"deadline_s"` // tier -> internal deadline
-	Assumptions []string       `json:"assumptions"`
-	Rule        string         `json:"rule"`
-	Gomaxprocs  int            `json:"gomaxprocs"`
-	Tags        string         `json:"tags"`
+	MapOrder    []string            `json:"map_order"`
+	Quiet       []string            `json:"quiet"`
+	Skip        []string            `json:"skip"`
+	KeepTests   []string            `json:"keep_tests"`
+	Shards      map[string]int      `json:"shards"`     // tier -> processes per package
+	DeadlineS   map[string]int      `json:"deadline_s"` // tier -> internal deadline
+	Assumptions []string            `json:"assumptions"`
+	Rule        string              `json:"rule"`
+	Gomaxprocs  int                 `json:"gomaxprocs"`
+	Tags        string              `json:"tags"`
+	Virtual     map[string][]string `json:"virtual"`
 }
 
 type knownFile struct {
@@ -149,7 +150,7 @@ func main() {
 		os.Exit(code)
 	}
 	overlay, err := instr.Build(instr.Config{RepoDir: repo, VrtDir: filepath.Join(vdir, "engine", "vrt"), Harness: hfiles, OutDir: tmp,
-		MapOrderPkgs: cfg.MapOrder, QuietPkgs: cfg.Quiet, SkipPkgs: cfg.Skip, KeepTests: cfg.KeepTests, Tags: cfg.Tags})
+		Virtual: cfg.Virtual, MapOrderPkgs: cfg.MapOrder, QuietPkgs: cfg.Quiet, SkipPkgs: cfg.Skip, KeepTests: cfg.KeepTests, Tags: cfg.Tags})
 	if err != nil {
 		fmt.Fprintf(os.Stderr, "INFRA-ERROR instrument: %v\n", err)
 		exit(2)
@@ -233,6 +234,9 @@ func main() {
 			}
 			cmd := exec.Command(j.b.path, "-test.run", run, "-test.timeout", "0", "-test.count", "1")
 			cmd.Dir = filepath.Join(repo, j.b.pkg)
+			if _, err := os.Stat(cmd.Dir); err != nil {
+				cmd.Dir = tmp
+			}
 			gmp := cfg.Gomaxprocs
 			if gmp <= 0 {
 				gmp = 1
@@ -382,7 +386,7 @@ func main() {
 	cov := map[string]any{
 		"states": states, "transitions": transitions, "traces_validated_against_impl": execs,
 		"evaluations": execs, "distinct_nontrivial": distinct,
-		"rule": firstNonEmpty(cfg.Rule, "every explored trace is an execution of the instrumented real code; states = schedules at the largest completed bound (schedule search), canonical states (history search) or distinct non-trivial input classes (input enumeration); distinct_nontrivial = sum over scenarios of distinct observable outcomes (schedule search) or distinct canonical states / input classes"),
+		"rule":    firstNonEmpty(cfg.Rule, "every explored trace is an execution of the instrumented real code; states = schedules at the largest completed bound (schedule search), canonical states (history search) or distinct non-trivial input classes (input enumeration); distinct_nontrivial = sum over scenarios of distinct observable outcomes (schedule search) or distinct canonical states / input classes"),
 		"samples": samples, "exhaustive": exhaustive, "scheduling_points": points, "scenarios": len(results), "scenario_summaries": scen,
 		"build_s": buildS, "shards": shards, "packages": pkgDirs,
 	}
@@ -407,7 +411,7 @@ func main() {
 	ev := map[string]any{
 		"property_id": id, "tier": tier, "seed": seed, "level": "model_checking", "coverage": cov,
 		"assumptions": append([]string{"sequentially consistent cooperative scheduler: scheduling points at sync/atomic/channel/time operations of instrumented code; third-party calls are atomic steps"}, cfg.Assumptions...),
-		"wall_s": time.Since(start).Seconds(), "violations": nviol,
+		"wall_s":      time.Since(start).Seconds(), "violations": nviol,
 	}
 	if replay == "" {
 		os.MkdirAll(filepath.Join(vdir, "evidence"), 0o755)
